@@ -133,14 +133,12 @@ type system struct {
 	sawTwoKeys            bool // >=2 distinct questions in flight together
 	settleMisses          int
 	skipped               int
-	forgotten             map[string]bool
-	reaskedForgotten      int
 	usedErr, usedRangeErr bool
 	stale                 bool // sibling slices of a failed range query were not seen aborted in time: case is inconclusive
 }
 
 func newSystem(c Case) *system {
-	s := &system{c: c, forgotten: map[string]bool{}}
+	s := &system{c: c}
 	s.g = fakeprom.NewGated(c.Concurrency)
 	up := promapi.NewPrometheus("c14", s.g.URL(), "", nil, 5*time.Minute, c.Concurrency, 1_000_000, nil)
 	s.fg = promapi.NewFailoverGroup("c14", s.g.URL(), []*promapi.Prometheus{up}, true, "up", nil, nil, nil)
@@ -375,11 +373,8 @@ func (s *system) exec(a Action) {
 						siblings = append(siblings, o.ID)
 					}
 				}
-				// the client will cancel the sibling slices; a slice answered successfully a moment ago may not
-				// have been read to the end (see fakeprom.Gated): allow it to be asked again
-				for _, k := range s.g.ForgetQuestion("query_range", p.Question) {
-					s.forgotten[k] = true
-				}
+				// (slices answered successfully earlier are known to have been decoded by the client before Release
+				// returned - fakeprom.Gated.writeAndAwaitClose - so the cancellation cannot un-answer them)
 			}
 			if !s.g.Release(p.ID, errAnswers[a.Err%len(errAnswers)]) {
 				s.skipped++
@@ -436,6 +431,9 @@ func (s *system) checkStep() error {
 	if s.stale {
 		return fmt.Errorf("%w: slices of a failed range query were still open on the server after 15s", errInconclusive)
 	}
+	if s.g.Stats().CloseTimeouts > 0 {
+		return fmt.Errorf("%w: the client did not finish reading a released range slice within 15s", errInconclusive)
+	}
 	s.settle()
 	// evidence
 	pend := s.g.Pending()
@@ -455,9 +453,6 @@ func (s *system) checkStep() error {
 
 func (s *system) verdict(wait time.Duration) error {
 	for _, sp := range s.g.Confirm(wait) {
-		if sp.Kind == "reasked" && s.forgotten[sp.Key] {
-			continue
-		}
 		return fmt.Errorf("%s", sp.String())
 	}
 	s.mu.Lock()
@@ -526,14 +521,6 @@ func (s *system) finalChecks() error {
 		seen[key] = c.res
 	}
 	return nil
-}
-
-func (s *system) countReaskedForgotten() {
-	for _, sp := range s.g.Suspects() {
-		if sp.Kind == "reasked" && s.forgotten[sp.Key] {
-			s.reaskedForgotten++
-		}
-	}
 }
 
 // ---------------------------------------------------------------------------
@@ -680,6 +667,17 @@ func TestPropMachine(t *testing.T) {
 			}
 			do(Action{Op: "start", Q: rapid.IntRange(0, len(c.Questions)-1).Draw(rt, "q")})
 		}
+		startSame := func(rt *rapid.T) { // one more caller for a question that is in flight right now
+			pend := s.g.Pending()
+			if s.unfinished() >= maxActive || len(pend) == 0 {
+				rt.Skip()
+			}
+			qi := s.questionOf(pend[rapid.IntRange(0, 11).Draw(rt, "of")%len(pend)])
+			if qi < 0 {
+				rt.Skip()
+			}
+			do(Action{Op: "start", Q: qi})
+		}
 		relOK := func(rt *rapid.T) {
 			if s.g.InFlight() == 0 {
 				rt.Skip()
@@ -694,7 +692,7 @@ func TestPropMachine(t *testing.T) {
 		}
 		advance := func(rt *rapid.T) { do(Action{Op: "advance"}) }
 		rt.Repeat(map[string]func(*rapid.T){
-			"start1": start, "start2": start, "start3": start, "start4": start,
+			"start1": start, "start2": start, "start3": start, "startSame1": startSame, "startSame2": startSame,
 			"releaseOK1": relOK, "releaseOK2": relOK,
 			"releaseErr": relErr,
 			"advance":    advance,
@@ -710,13 +708,11 @@ func TestPropMachine(t *testing.T) {
 		if err := s.finalChecks(); err != nil {
 			fail(err)
 		}
-		s.countReaskedForgotten()
 		class, nt := s.classify()
 		s.c.Class = class
 		rec.Case(class, nt, caseKey(s.c), func() any { return s.c })
 		rec.Count("steps", int64(len(s.c.Actions)))
 		rec.Count("settle_misses", int64(s.settleMisses))
-		rec.Count("reasked_after_cancelled_range_query", int64(s.reaskedForgotten))
 		st := s.g.Stats()
 		rec.Count("requests_seen_by_server", int64(st.Requests))
 		rec.Count("requests_aborted_by_client", int64(st.Aborted))
